@@ -53,8 +53,6 @@ def srvStep (c : Server.Sys) (toks : List String) : Server.Sys × List String :=
   match parseSOp toks with
   | some op =>
       let (c', os) := Server.stepOp c op
-      -- a stream that yielded an item has not parked: its consumer polls it again
-      let c' := if c'.s.nextVis > c.s.nextVis && !c'.s.dropped && c'.s.done.isNone then { c' with s := { c'.s with woken := true } } else c'
       (c', os.map showObs)
   | none => (c, ["bad-op"])
 
